@@ -107,6 +107,7 @@ def step (s : St) (l : Line) : St × Verdict :=
     | some e, some tid, some ksb, some ps, [rh] =>
       match ofHex rh with
       | some resp =>
+        if resp.length > ksb.length then (s, .bad s!"prep: the key stream prefix on the line ({ksb.length} bytes) is shorter than the response ({resp.length})") else
         match demonDispatch (ksOf ksb) resp with
         | none => (s, .specFail "C02.frame-decode" s!"{name}: the Demon's reader runs out of bounds on the response")
         | some ts =>
